@@ -187,18 +187,26 @@ func BaseStart(p Party, task string, prepare ...func(Round) *Error) *Error {
 	return nil
 }
 
+// WrapErrorLocked wraps an error that was raised outside the party lock (such as unparsable wire bytes).
+// Wrapping reads the current round, which a concurrent Update may be replacing at that moment.
+func WrapErrorLocked(p Party, err error, culprits ...*PartyID) *Error {
+	p.lock()
+	defer p.unlock()
+	return p.WrapError(err, culprits...)
+}
+
 // an implementation of Update that is shared across the different types of parties (keygen, signing, dynamic groups)
 func BaseUpdate(p Party, msg ParsedMessage, task string) (ok bool, err *Error) {
-	// fast-fail on an invalid message; do not lock the mutex yet
-	if _, err := p.ValidateMessage(msg); err != nil {
-		return false, err
-	}
 	// lock the mutex. need this mtx unlock hook; L108 is recursive so cannot use defer
 	r := func(ok bool, err *Error) (bool, *Error) {
 		p.unlock()
 		return ok, err
 	}
 	p.lock() // data is written to P state below
+	// fast-fail on an invalid message; wrapping the error reads the current round, so this runs under the lock too
+	if _, err := p.ValidateMessage(msg); err != nil {
+		return r(false, err)
+	}
 	// a round refused to start (a peer's message did not verify): this party must not go on with half-computed state
 	if err := p.failed(); err != nil {
 		return r(false, err)
